@@ -3,26 +3,54 @@
 R-TERM:  Gamma(m0^2) = Gamma0 by substitution; B_L^2(1) = 1; FormFactor = sqrt(B_L^2(q^2 d^2));
          builder expressions == the public lineshape functions under the stated correspondence.
 R-SINGLE the fast polynomial path of BlattWeisskopfSquared is derived from the Hankel definition.
+
+Every verdict is three-valued: a term that the evaluator produced and that differs from the reference is a
+VIOLATION; a construct that the evaluator cannot turn into a term is an ANALYSIS-ERROR (never a violation).
+The builder is read through its PUBLIC behaviour (``__call__`` under the four flag combinations, the module-level
+convenience builders evaluated as the objects they are); the resonance parameter symbols are identified by
+their NAMES in the produced terms (``m_{id}``, ``Gamma_{id}``, ``d_{id}``), not by the private helper that makes them.
 """
 
 from __future__ import annotations
 
 import ast
 
-from ..dataflow import RD
-from ..loader import AnalysisError, Tree, unparse, walk_function
+from ..loader import AnalysisError, FuncInfo, Tree, unparse
 from ..poly import RF, D, equal, sqrt, sym
 from ..report import Check
-from ..terms import DictV, Opaque, TermEval, Tup
+from ..terms import DictV, Opaque, PW, Partial, TermEval, Tup, deep_atoms, vkey
 
 PID = "C12"
 DYN = "ampform.dynamics"
 FF = "ampform.dynamics.form_factor"
 BLD = "ampform.dynamics.builder"
 I = RF.atom("I")
+BUILDER = f"{BLD}::RelativisticBreitWignerBuilder"
+# the model parameters of a resonance are identified by their names (observable: they are the parameter names of the model)
+SKELETONS = {"mass": "m_{", "width": "\\Gamma_{", "meson radius": "d_{"}
+
+
+PHSP_PARAMS = ("s", "m_a", "m_b")  # PhaseSpaceFactorProtocol.__call__(self, s, m_a, m_b)
+
+
+def abstract_phsp(te: TermEval) -> Opaque:
+    """An abstract phase-space factor (any callable that obeys PhaseSpaceFactorProtocol): its application is an opaque
+    term over the arguments bound by the protocol's parameter names, so positional and keyword calls are one term."""
+    def call(te_, args, kwargs):
+        if len(args) > len(PHSP_PARAMS) or set(kwargs) - set(PHSP_PARAMS) or set(PHSP_PARAMS[: len(args)]) & set(kwargs):
+            raise AnalysisError(f"the phase-space factor is not called as phsp_factor(s, m_a, m_b): {len(args)} positional, keywords {sorted(kwargs)}")
+        bound = {**dict(zip(PHSP_PARAMS, args)), **kwargs}
+        if set(bound) != set(PHSP_PARAMS):
+            raise AnalysisError(f"the phase-space factor is called without {sorted(set(PHSP_PARAMS) - set(bound))}")
+        return te_.app("call:" + repr(("opaque", ("ref", "PHSP"))), [bound[p] for p in PHSP_PARAMS])
+
+    te.overrides["PHSP"] = call
+    return Opaque(("ref", "PHSP"))
 
 
 def builder_env(te: TermEval, phsp=None):
+    if phsp is None:
+        phsp = abstract_phsp(te)
     pool = {
         "incoming_state_mass": sym("M"),
         "outgoing_state_mass1": sym("ma"),
@@ -36,41 +64,153 @@ def builder_env(te: TermEval, phsp=None):
     return pool, resonance, self_struct
 
 
+def value_atoms(te: TermEval, v) -> set:
+    """All atoms of a value, also below the keys and values of a dict value."""
+    if isinstance(v, DictV):
+        out: set = set()
+        for k, x in v.items:
+            out |= value_atoms(te, k) | value_atoms(te, x)
+        return out
+    if isinstance(v, (list, tuple)):
+        out = set()
+        for x in v:
+            out |= value_atoms(te, x)
+        return out
+    return deep_atoms(te, v)
+
+
+def resonance_symbols(te: TermEval, *values) -> dict[str, list]:
+    """role -> the symbols with that role's name skeleton that occur in the values (sorted, as atoms)."""
+    found: dict[str, set] = {role: set() for role in SKELETONS}
+    for v in values:
+        for a in value_atoms(te, v):
+            if isinstance(a, str):
+                for role, prefix in SKELETONS.items():
+                    if a.startswith(prefix):
+                        found[role].add(a)
+    return {role: sorted(atoms) for role, atoms in found.items()}
+
+
+def builder_pair(val, what: str):
+    """(expression, parameter defaults) of a builder result; anything else is outside what the rules read."""
+    if isinstance(val, Tup) and len(val.items) == 2 and isinstance(val.items[1], DictV):
+        return val.items[0], val.items[1]
+    raise AnalysisError(f"{what}: does not evaluate to (expression, {{parameter: default}}) but to {repr(val)[:120]}")
+
+
+def builder_results(te: TermEval, tree: Tree, self_struct: dict, resonance, pool) -> dict:
+    """(energy_dependent_width, form_factor) -> (expression, defaults) of ``RelativisticBreitWignerBuilder.__call__``."""
+    cls = tree.cls(BUILDER)
+    call_m = cls.methods.get("__call__")
+    if call_m is None:
+        raise AnalysisError("vanished anchor: RelativisticBreitWignerBuilder.__call__")
+    out = {}
+    for edw in (False, True):
+        for ff in (False, True):
+            struct = {**self_struct, "energy_dependent_width": Opaque(edw), "form_factor": Opaque(ff)}
+            out[edw, ff] = builder_pair(te.eval_function(call_m, [struct, resonance, pool]), f"RelativisticBreitWignerBuilder(energy_dependent_width={edw}, form_factor={ff})")
+    return out
+
+
+def the_resonance_symbols(te: TermEval, results: dict) -> tuple:
+    """(mass, width, meson radius) symbols of the full lineshape (energy dependent width x form factor)."""
+    found = resonance_symbols(te, *results[True, True])
+    bad = {role: atoms for role, atoms in found.items() if len(atoms) != 1}
+    if bad:
+        raise AnalysisError(f"cannot identify the parameter symbols of the resonance in the full lineshape: {bad} (expected one `m_{{id}}`, one `\\Gamma_{{id}}`, one `d_{{id}}`)")
+    return tuple(RF.atom(found[role][0]) for role in SKELETONS)
+
+
+def module_scope(mod) -> FuncInfo:
+    """A pseudo function for evaluating module-level expressions (names resolve through the module's table)."""
+    node = ast.FunctionDef(name="<module>", args=ast.arguments(posonlyargs=[], args=[], vararg=None, kwonlyargs=[], kw_defaults=[], kwarg=None, defaults=[]),
+                           body=[], decorator_list=[], returns=None, type_comment=None)
+    return FuncInfo(qual=f"{mod.name}::<module>", node=node, module=mod, cls=None, outer=None)
+
+
+def module_value(te: TermEval, mod, name: str, _seen: tuple = ()):
+    """The value of a module-level name: a function / class is a reference to it, ``name = <expr>`` is the value of
+    the expression evaluated in module scope (other module-level values it mentions are evaluated first)."""
+    st = mod.toplevel.get(name)
+    if st is None:
+        raise AnalysisError(f"vanished anchor: {mod.name}::{name}")
+    if isinstance(st, (ast.FunctionDef, ast.ClassDef)):
+        return Opaque(("ref", f"{mod.name}::{name}"))
+    value = getattr(st, "value", None)
+    if not isinstance(st, (ast.Assign, ast.AnnAssign)) or value is None:
+        raise AnalysisError(f"{mod.name}::{name} is bound by a {type(st).__name__} (a function, a class or `name = <expression>` expected)")
+    env: dict = {}
+    for n in ast.walk(value):
+        if isinstance(n, ast.Name) and n.id != name and n.id not in _seen and isinstance(mod.toplevel.get(n.id), (ast.Assign, ast.AnnAssign)):
+            env[n.id] = module_value(te, mod, n.id, (*_seen, name))
+    return te.ev(value, env, module_scope(mod))
+
+
+def bind_module_objects(te: TermEval, tree: Tree, mod, cls_qual: str) -> None:
+    """Module-level names that are bound once to an expression constructing ``cls_qual`` (a shared builder instance)
+    become known values of the evaluator, so that functions of the module that use them can be evaluated."""
+    for name, st in mod.toplevel.items():
+        value = getattr(st, "value", None)
+        if not isinstance(st, (ast.Assign, ast.AnnAssign)) or value is None:
+            continue
+        if not any(isinstance(c, ast.Call) and tree.resolve(mod, c.func) == cls_qual for c in ast.walk(value)):
+            continue
+        try:
+            te.module_values[f"{mod.name}::{name}"] = module_value(te, mod, name)
+        except AnalysisError:
+            continue  # a use of it fails closed with "call of external ... outside grammar"
+
+
+def decide(ctx: Check, got, want, rule: str, key: str, where: str, what: str) -> bool:
+    """Three-valued: a term that equals / differs from the reference, or no term at all (ANALYSIS-ERROR)."""
+    if isinstance(got, (int,)):
+        got = RF.const(got)
+    if not isinstance(got, RF):
+        raise AnalysisError(f"{key}: evaluates to {type(got).__name__} `{repr(got)[:100]}`, not to a scalar term")
+    ok = equal(got, want)
+    ctx.verdict(ok, rule, key, where, what, None if ok else repr(got)[:300])
+    return ok
+
+
 def check_hankel_series(ctx: Check, tree: Tree) -> None:
     """R-TERM: SphericalHankel1(l, z).evaluate() is the closed series of the spherical Hankel function
     of the first kind,  h_l^(1)(z) = (-i)^(l+1) e^(iz)/z * sum_{k=0}^{l} (l+k)!/((l-k)! k!) (i/(2z))^k
     (Abramowitz-Stegun 10.1.16; the reference is written in the module's own namespace and
-    evaluated by the same term extractor).  Both paths of BlattWeisskopfSquared are built from it."""
-    import ast as _ast
-
+    evaluated by the same term extractor).  Both paths of BlattWeisskopfSquared are built from it.
+    The summation variable is read off the TERM (the index of the one finite sum it contains), so how the
+    method names its intermediate values does not matter."""
     D.reset()
     te = TermEval(tree)
     cls = tree.cls(f"{FF}::SphericalHankel1")
     ev = cls.methods.get("evaluate")
     if ev is None:
         raise AnalysisError("vanished anchor: SphericalHankel1.evaluate")
-    info = te.apps[te.single_atom(te.construct(cls.qual, [sym("l"), sym("z")], {}))]
-    env = te.self_env(cls.qual, info)
-    got = te.eval_body(ev.node.body, dict(env), ev)
-    # the summation variable of the code (whatever it is called, whatever its assumptions)
-    dummies = [st for st in ev.node.body if isinstance(st, _ast.Assign) and isinstance(st.value, _ast.Call) and "Dummy" in unparse(st.value.func)]
-    if len(dummies) != 1:
-        raise AnalysisError("SphericalHankel1.evaluate: summation variable (sp.Dummy) not found")
-    env2 = dict(env)
-    env2["k"] = te.ev(dummies[0].value, env, ev)
-    env2.update({"l": env.get("l", sym("l")), "z": env.get("z", sym("z"))})
-    if "l" not in env or "z" not in env:
-        # fields are unpacked from self.args in the body: bind them by name for the reference
-        env2["l"], env2["z"] = sym("l"), sym("z")
-    spec = "(-sp.I) ** (1 + l) * (sp.exp(z * sp.I) / z) * _SymbolicSum(sp.factorial(l + k) / (sp.factorial(l - k) * sp.factorial(k)) * (sp.I / (2 * z)) ** k, (k, 0, l))"
-    want = te.ev(_ast.parse(spec, mode="eval").body, env2, ev)
-    ok = isinstance(got, RF) and equal(got, want)
-    ctx.verdict(ok, "R-TERM", f"{cls.qual}.evaluate::series", tree.loc(ev.node),
-                "SphericalHankel1(l, z) == (-i)^(l+1) e^(iz)/z * sum_{k=0..l} (l+k)!/((l-k)! k!) (i/(2z))^k", None if ok else repr(got)[:300])
-    kw = {k.arg: unparse(k.value) for k in dummies[0].value.keywords}
-    ok2 = kw.get("integer") == "True" and kw.get("nonnegative") == "True"
-    ctx.verdict(ok2, "R-TERM", f"{cls.qual}.evaluate::summation-variable", tree.loc(dummies[0]), "the summation variable is a non-negative integer Dummy (factorial(k) and the finite sum need it)",
-                None if ok2 else kw)
+    l, z = sym("l"), sym("z")
+    got = te.unfold_atom(te.single_atom(te.construct(cls.qual, [l, z], {})))
+    if not isinstance(got, RF):
+        raise AnalysisError(f"SphericalHankel1.evaluate evaluates to {type(got).__name__}, not to a scalar term")
+    sums = sorted((a for a in deep_atoms(te, got) if te.is_app(a) and a in te.apps and te.apps[a].cls.split("::")[-1].split(".")[-1] in {"_SymbolicSum", "Sum"}), key=repr)
+    if len(sums) != 1:
+        raise AnalysisError(f"SphericalHankel1.evaluate: {len(sums)} finite sums in the term (one expected)")
+    info = te.apps[sums[0]]
+    if len(info.args) != 2 or not isinstance(info.args[1], Tup) or len(info.args[1].items) != 3 or not isinstance(info.args[1].items[0], RF):
+        raise AnalysisError("SphericalHankel1.evaluate: the sum is not of the form Sum(summand, (index, lower, upper))")
+    k = info.args[1].items[0]
+    kname = te.single_atom(k)
+    if not isinstance(kname, str):
+        raise AnalysisError("SphericalHankel1.evaluate: the summation index is not a symbol")
+    env = {"l": l, "z": z, "k": k}
+    summand = te.ev(ast.parse("sp.factorial(l + k) / (sp.factorial(l - k) * sp.factorial(k)) * (sp.I / (2 * z)) ** k", mode="eval").body, env, ev)
+    prefix = te.ev(ast.parse("(-sp.I) ** (1 + l) * (sp.exp(z * sp.I) / z)", mode="eval").body, env, ev)
+    want = prefix * te.app(info.cls, [summand, Tup([k, RF.const(0), l])], info.kwargs)
+    decide(ctx, got, want, "R-TERM", f"{cls.qual}.evaluate::series", tree.loc(ev.node),
+           "SphericalHankel1(l, z) == (-i)^(l+1) e^(iz)/z * sum_{k=0..l} (l+k)!/((l-k)! k!) (i/(2z))^k")
+    made = te.symbol_constructions.get(kname)
+    if not made:
+        raise AnalysisError(f"SphericalHankel1.evaluate: the construction of the summation variable `{kname}` was not seen")
+    ok2 = all(a.get("integer") == "True" and a.get("nonnegative") == "True" for _, a in made)
+    ctx.verdict(ok2, "R-TERM", f"{cls.qual}.evaluate::summation-variable", tree.loc(ev.node), "the summation variable is a non-negative integer Dummy (factorial(k) and the finite sum need it)",
+                None if ok2 else [a for _, a in made])
 
 
 def run(ctx: Check, tree: Tree) -> None:
@@ -80,8 +220,8 @@ def run(ctx: Check, tree: Tree) -> None:
         "EnergyDependentWidth.evaluate at s = mass0^2 normalises to gamma0 for every phase-space factor and L (ff/ff0 and rho/rho0 become identical applications)",
         "SphericalHankel1.evaluate is the closed Hankel series (the defining expression both Blatt-Weisskopf paths are built from)",
         "_formulate_blatt_weisskopf(L, z=1) normalises to 1; FormFactor = sqrt(BlattWeisskopfSquared(q^2(s,m1,m2) * d^2, L))",
-        "both branches of BlattWeisskopfSquared.evaluate come from _formulate_blatt_weisskopf (the polynomial cache is derived from it)",
-        "RelativisticBreitWignerBuilder: simple BW delegates to relativistic_breit_wigner(s = M^2, ...); form factor x energy-dependent BW == relativistic_breit_wigner_with_ff under (s, mass0, gamma0, m_a, m_b, L, d, phsp) <-> (M^2, res_mass, res_width, m1, m2, L, d, self.phsp_factor); convenience builders have their documented flags",
+        "every path of BlattWeisskopfSquared.evaluate yields the term of _formulate_blatt_weisskopf (the lambdified polynomial cache, applied to its own variable, is that term)",
+        "RelativisticBreitWignerBuilder: the four flag combinations of __call__ equal the function API under (s, mass0, gamma0, m_a, m_b, L, d, phsp) <-> (M^2, res_mass, res_width, m1, m2, L, d, self.phsp_factor); the convenience builders, evaluated as the objects they are, give the documented lineshapes",
     ]
     ctx.not_decided += ["z^L threshold behaviour and boundedness (asymptotics)", "equality of values of the symbolic-L and integer-L paths (SymPy simplify/lambdify)"]
     ctx.assumptions += ["SymPy's doit().simplify() and lambdify preserve the value of the Hankel expression"]
@@ -96,44 +236,43 @@ def run(ctx: Check, tree: Tree) -> None:
         ctx.ok("R-STRUCTSUBS", "src/ampform/dynamics", "no lineshape is evaluated 'at a point' by substituting a parameter that callers may bind to a compound expression")
     D.reset()
     te = TermEval(tree)
-    PH = Opaque(("ref", "PHSP"))
+    PH = abstract_phsp(te)
 
     # ---- Gamma(m0^2) = Gamma0
-    edw = te.classes[f"{DYN}::EnergyDependentWidth"]
+    edw = te.classes.get(f"{DYN}::EnergyDependentWidth")
+    if edw is None or edw.method("evaluate") is None:
+        raise AnalysisError("vanished anchor: EnergyDependentWidth.evaluate")
     m0, g0, ma, mb, L, d, s = (sym(n) for n in ("m0", "gamma0", "ma", "mb", "L", "d", "s"))
     at_pole = te.unfold_atom(te.single_atom(te.construct(edw.qual, [m0**2, m0, g0, ma, mb, L, d], {"phsp_factor": PH})))
-    ok = isinstance(at_pole, RF) and equal(at_pole, g0)
     where = tree.loc(edw.method("evaluate").node)
-    ctx.verdict(ok, "R-TERM", f"{edw.qual}.evaluate::pole-normalisation", where, "EnergyDependentWidth(s = mass0^2) == gamma0 (for any phase-space factor and any L)",
-                None if ok else repr(at_pole)[:250])
+    decide(ctx, at_pole, g0, "R-TERM", f"{edw.qual}.evaluate::pole-normalisation", where, "EnergyDependentWidth(s = mass0^2) == gamma0 (for any phase-space factor and any L)")
     generic = te.unfold_atom(te.single_atom(te.construct(edw.qual, [s, m0, g0, ma, mb, L, d], {"phsp_factor": PH})))
     ffq = f"{FF}::FormFactor"
+    if ffq not in te.classes or te.classes[ffq].method("evaluate") is None:
+        raise AnalysisError("vanished anchor: FormFactor.evaluate")
     ff = te.construct(ffq, [s, ma, mb, L, d], {})
     ff0 = te.construct(ffq, [m0**2, ma, mb, L, d], {})
     rho = te.app("call:" + repr(("opaque", ("ref", "PHSP"))), [s, ma, mb])
     rho0 = te.app("call:" + repr(("opaque", ("ref", "PHSP"))), [m0**2, ma, mb])
     want = g0 * (ff / ff0) ** 2 * (rho / rho0)
-    ok = isinstance(generic, RF) and equal(generic, want)
-    ctx.verdict(ok, "R-TERM", f"{edw.qual}.evaluate::definition", where, "EnergyDependentWidth == gamma0 * (F(s)/F(m0^2))^2 * rho(s)/rho(m0^2) with the caller's phsp_factor",
-                None if ok else repr(generic)[:250])
+    decide(ctx, generic, want, "R-TERM", f"{edw.qual}.evaluate::definition", where, "EnergyDependentWidth == gamma0 * (F(s)/F(m0^2))^2 * rho(s)/rho(m0^2) with the caller's phsp_factor")
 
     # ---- Blatt-Weisskopf
     fbw = tree.func(f"{FF}::_formulate_blatt_weisskopf")
     at_one = te._rf(te.eval_function(fbw, [L, RF.const(1)]))
-    ok = equal(at_one, RF.const(1))
-    ctx.verdict(ok, "R-TERM", f"{fbw.qual}::unit-normalisation", tree.loc(fbw.node), "B_L^2(z = 1) == 1 for symbolic L", None if ok else repr(at_one)[:200])
+    decide(ctx, at_one, RF.const(1), "R-TERM", f"{fbw.qual}::unit-normalisation", tree.loc(fbw.node), "B_L^2(z = 1) == 1 for symbolic L")
     z = sym("z")
     gen = te._rf(te.eval_function(fbw, [L, z]))
     h = f"{FF}::SphericalHankel1"
+    if h not in te.classes:
+        raise AnalysisError("vanished anchor: SphericalHankel1")
     want = te.app("Abs", [te.construct(h, [L, RF.const(1)], {})]) ** 2 / te.app("Abs", [te.construct(h, [L, sqrt(z)], {})]) ** 2 / z
-    ok = equal(gen, want)
-    ctx.verdict(ok, "R-TERM", f"{fbw.qual}::definition", tree.loc(fbw.node), "B_L^2(z) == |h_L(1)|^2 / (|h_L(sqrt z)|^2 * z)", None if ok else repr(gen)[:200])
+    decide(ctx, gen, want, "R-TERM", f"{fbw.qual}::definition", tree.loc(fbw.node), "B_L^2(z) == |h_L(1)|^2 / (|h_L(sqrt z)|^2 * z)")
     ffc = te.classes[ffq]
     got = te.unfold_atom(te.single_atom(te.construct(ffq, [s, ma, mb, L, d], {})))
     q2 = te.construct("ampform.dynamics.phasespace::BreakupMomentumSquared", [s, ma, mb], {})
     want = sqrt(te.construct(f"{FF}::BlattWeisskopfSquared", [q2 * d**2, L], {}))
-    ok = isinstance(got, RF) and equal(got, want)
-    ctx.verdict(ok, "R-TERM", f"{ffq}.evaluate", tree.loc(ffc.method("evaluate").node), "FormFactor(s, m1, m2, L, d) == sqrt(BlattWeisskopfSquared(q^2(s, m1, m2) * d^2, L))", None if ok else repr(got)[:200])
+    decide(ctx, got, want, "R-TERM", f"{ffq}.evaluate", tree.loc(ffc.method("evaluate").node), "FormFactor(s, m1, m2, L, d) == sqrt(BlattWeisskopfSquared(q^2(s, m1, m2) * d^2, L))")
     ctx.section(check_single_source, ctx, tree)
 
     # ---- builder API == function API
@@ -145,141 +284,172 @@ def run(ctx: Check, tree: Tree) -> None:
     ctx.section(check_same_decay, ctx, tree)  # the builder is called for THIS node's variable set (no memo that ignores L)
 
 
+class _NeedsVariable(BaseException):
+    """The lambdified function was applied to something other than its own variable (carries that variable)."""
+
+    def __init__(self, var) -> None:
+        super().__init__("lambdified function applied to another argument")
+        self.var = var
+
+
 def check_single_source(ctx: Check, tree: Tree) -> None:
+    """R-SINGLE: whatever path ``BlattWeisskopfSquared(z, L).evaluate()`` takes, its value is the term of
+    ``_formulate_blatt_weisskopf(L, z)``.  The fast path goes through ``sp.lambdify(v, e)(z)``: the rule evaluates
+    the method with ``z`` := the very variable ``v`` the cached function lambdifies in, where the application is
+    exactly ``e`` (``doit`` / ``simplify`` preserve the value - stated assumption).  A cached expression that is
+    formulated in one variable and lambdified in another, or that is a formula of its own, gives a different term.
+    How the cached function is split into helpers, and how the branch is selected, does not matter."""
     cls = tree.cls(f"{FF}::BlattWeisskopfSquared")
-    ev = cls.methods["evaluate"]
-    target = f"{FF}::_formulate_blatt_weisskopf"
-    rets = [r for r in walk_function(ev.node) if isinstance(r, ast.Return) and r.value is not None]
-    rd = RD(ev.node)
+    ev = cls.methods.get("evaluate")
+    if ev is None:
+        raise AnalysisError("vanished anchor: BlattWeisskopfSquared.evaluate")
+    fbw = tree.func(f"{FF}::_formulate_blatt_weisskopf")
+
+    def evaluate_at(z):
+        D.reset()
+        te = TermEval(tree)
+        te.fork = True  # every path of evaluate() is judged
+
+        def lambdify(te_, args, kwargs):
+            if len(args) < 2:
+                raise AnalysisError("sp.lambdify: variable and expression are not passed positionally")
+            return Partial(Opaque(("ref", "<lambdified>")), [args[0], args[1]], {})
+
+        def applied(te_, args, kwargs):
+            if len(args) != 3 or kwargs:
+                raise AnalysisError("the lambdified Blatt-Weisskopf function is not applied to one argument")
+            var, expr, actual = args
+            if isinstance(var, (Tup, list)):
+                raise AnalysisError("the Blatt-Weisskopf polynomial is lambdified in several variables")
+            if vkey(actual) == vkey(var):
+                return expr
+            raise _NeedsVariable(var)
+
+        te.overrides["sympy.lambdify"] = lambdify
+        te.overrides["<lambdified>"] = applied
+        L = sym("L")
+        zval = z if z is not None else sym("z")
+        info = te.apps[te.single_atom(te.construct(cls.qual, [zval, L], {}))]
+        got = te.eval_body(ev.node.body, te.self_env(cls.qual, info), ev)
+        want = te._rf(te.eval_function(fbw, [L, zval]))
+        return te, got, want
+
+    try:
+        te, got, want = evaluate_at(None)
+    except _NeedsVariable as need:
+        if not isinstance(need.var, RF):
+            raise AnalysisError("the variable of sp.lambdify is not a symbol") from None
+        try:
+            te, got, want = evaluate_at(need.var)
+        except _NeedsVariable:
+            raise AnalysisError("BlattWeisskopfSquared.evaluate: the lambdified polynomial is applied to an argument that is not z") from None
+    paths = list(got.branches) if isinstance(got, PW) else [(got, None)]
     problems = []
-    if len(rets) != 2:
-        problems.append(f"{len(rets)} exits (2 expected)")
-    for r in rets:
-        calls = [c for c in ast.walk(r.value) if isinstance(c, ast.Call)]
-        for d in rd.closure(rd.uses(r.value)):
-            if d.value is not None:
-                calls += [c for c in ast.walk(d.value) if isinstance(c, ast.Call)]
-        callees = {tree.callee(c, ev) for c in calls}
-        if target in callees:
-            continue
-        via = [c for c in callees if c in tree.funcs and any(cc == target for _, cc in tree.calls_in(tree.funcs[c]))]
-        if not via:
-            problems.append(f"`{unparse(r)[:50]}` does not come from _formulate_blatt_weisskopf")
-    # the cache function lambdifies the very expression it formulated, in the same variable
-    poly = tree.func(f"{FF}::_get_polynomial_blatt_weisskopf")
-    prd = RD(poly.node)
-    lam = [c for c in walk_function(poly.node) if isinstance(c, ast.Call) and tree.callee(c, poly) == "sympy.lambdify"]
-    if len(lam) != 1:
-        problems.append("no single sp.lambdify in _get_polynomial_blatt_weisskopf")
-    else:
-        var, expr = lam[0].args[0], lam[0].args[1]
-        deps = prd.closure(prd.uses(expr))
-        from_def = [d for d in deps if d.value is not None and any(isinstance(c, ast.Call) and tree.callee(c, poly) == target for c in ast.walk(d.value))]
-        if not from_def:
-            problems.append("the lambdified expression does not derive from _formulate_blatt_weisskopf")
-        else:
-            call = next(c for c in ast.walk(from_def[0].value) if isinstance(c, ast.Call) and tree.callee(c, poly) == target)
-            if len(call.args) != 2 or unparse(call.args[1]) != unparse(var) or unparse(call.args[0]) != poly.params[0]:
-                problems.append(f"formulated with `{unparse(call)}` but lambdified in `{unparse(var)}`")
-    branch = [n for n in walk_function(ev.node) if isinstance(n, ast.If)]
-    if not (len(branch) == 1 and "free_symbols" in unparse(branch[0].test)):
-        problems.append("the fast path is not selected by `L has free symbols`")
+    for val, cond in paths:
+        if not isinstance(val, RF):
+            raise AnalysisError(f"BlattWeisskopfSquared.evaluate: a path evaluates to {type(val).__name__}, not to a scalar term")
+        if not equal(val, want):
+            problems.append(f"a path of evaluate() yields {repr(val)[:160]}, which is not _formulate_blatt_weisskopf(L, z)")
     ctx.verdict(not problems, "R-SINGLE", f"{cls.qual}.evaluate::single-source", tree.loc(ev.node),
-                "both paths of BlattWeisskopfSquared.evaluate are _formulate_blatt_weisskopf: symbolic L directly, numeric L through the lambdified simplification of the same expression in the same variable", problems or None)
+                f"all {len(paths)} path(s) of BlattWeisskopfSquared.evaluate are _formulate_blatt_weisskopf: symbolic L directly, numeric L through the lambdified simplification of the same expression in the same variable", problems or None)
 
 
 def check_builder(ctx: Check, tree: Tree, te: TermEval) -> None:
-    cls = tree.cls(f"{BLD}::RelativisticBreitWignerBuilder")
+    cls = tree.cls(BUILDER)
     pool, resonance, self_struct = builder_env(te)
     M = pool["incoming_state_mass"]
+    m1, m2, L = pool["outgoing_state_mass1"], pool["outgoing_state_mass2"], pool["angular_momentum"]
+    results = builder_results(te, tree, self_struct, resonance, pool)
+    res_mass, res_width, radius = the_resonance_symbols(te, results)
+    call_m = cls.methods["__call__"]
 
-    def call_method(name):
-        m = cls.methods[name]
-        is_static = any(unparse(dd) == "staticmethod" for dd in m.node.decorator_list)
-        args = [resonance, pool] if is_static else [self_struct, resonance, pool]
-        return te.eval_function(m, args)
-
-    symbols = te.eval_function(cls.methods["__create_symbols"], [resonance])
-    if not (isinstance(symbols, Tup) and len(symbols.items) == 3):
-        raise AnalysisError("__create_symbols does not return three symbols")
-    res_mass, res_width, radius = symbols.items
+    def where_of(name):
+        m = cls.methods.get(name)
+        return tree.loc((m or call_m).node)
 
     # simple BW
-    simple = call_method("__simple_breit_wigner")
+    simple, simple_defaults = results[False, False]
     fn_bw = tree.func(f"{DYN}::relativistic_breit_wigner")
-    want = te.eval_function(fn_bw, [M**2, res_mass, res_width])
-    ok = isinstance(simple, Tup) and equal(te._rf(simple.items[0]), te._rf(want))
-    ctx.verdict(ok, "R-TERM", f"{cls.qual}.__simple_breit_wigner::equals-function", tree.loc(cls.methods["__simple_breit_wigner"].node),
-                "builder simple BW == relativistic_breit_wigner(s = M^2, mass0 = m_res, gamma0 = Gamma_res)", None if ok else repr(simple)[:200])
-    delegated = any(tree.callee(c, cls.methods["__simple_breit_wigner"]) == fn_bw.qual for c in walk_function(cls.methods["__simple_breit_wigner"].node) if isinstance(c, ast.Call))
-    ctx.verdict(delegated, "R-TERM", f"{cls.qual}.__simple_breit_wigner::delegates", tree.loc(cls.methods["__simple_breit_wigner"].node), "the simple BW is produced by calling the public function (single definition)")
-    # symbols of the simple path == symbols of __create_symbols
-    if isinstance(simple, Tup) and isinstance(simple.items[1], DictV):
-        keys = {repr(te._rf(k).key()) for k, _ in simple.items[1].items}
-        ok = keys == {repr(te._rf(res_mass).key()), repr(te._rf(res_width).key())}
-        ctx.verdict(ok, "R-TERM", f"{cls.qual}.__simple_breit_wigner::symbols", tree.loc(cls.methods["__simple_breit_wigner"].node), "simple BW uses the same mass/width symbols as __create_symbols (equal-named parameters are one parameter)")
+    plain = te._rf(te.eval_function(fn_bw, [M**2, res_mass, res_width]))
+    equal_simple = decide(ctx, simple, plain, "R-TERM", f"{cls.qual}.__simple_breit_wigner::equals-function", where_of("__simple_breit_wigner"),
+                          "builder simple BW == relativistic_breit_wigner(s = M^2, mass0 = m_res, gamma0 = Gamma_res)")
+    # single definition: the public function is reached from the builder - or the builder's own formula is the same term
+    delegated = fn_bw.qual in tree.reachable(call_m.qual)
+    ctx.verdict(delegated or equal_simple, "R-TERM", f"{cls.qual}.__simple_breit_wigner::delegates", where_of("__simple_breit_wigner"),
+                "the simple BW is produced by calling the public function (single definition)" if delegated else "the simple BW is the same term as the public function (it does not call it)")
+    # symbols of the simple path == symbols of the full lineshape (equal-named parameters are one parameter)
+    keys = {repr(te._rf(k).key()) for k, _ in simple_defaults.items}
+    ok = keys == {repr(res_mass.key()), repr(res_width.key())}
+    ctx.verdict(ok, "R-TERM", f"{cls.qual}.__simple_breit_wigner::symbols", where_of("__simple_breit_wigner"),
+                "simple BW uses the same mass/width symbols as the energy-dependent lineshape (equal-named parameters are one parameter)", None if ok else sorted(keys))
 
     # energy dependent x form factor
-    edbw = call_method("__energy_dependent_breit_wigner")
-    ffv = call_method("__create_form_factor")
     fn_ff = tree.func(f"{DYN}::relativistic_breit_wigner_with_ff")
-    want = te.eval_function(fn_ff, [M**2, res_mass, res_width, pool["outgoing_state_mass1"], pool["outgoing_state_mass2"], pool["angular_momentum"], radius, self_struct["phsp_factor"]])
-    ok = isinstance(edbw, Tup) and isinstance(ffv, Tup)
-    if ok:
-        got = te._rf(ffv.items[0]) * te._rf(edbw.items[0])
-        ok = equal(got, te._rf(want))
-    ctx.verdict(ok, "R-TERM", f"{cls.qual}::ff-times-edbw-equals-function", tree.loc(cls.methods["__energy_dependent_breit_wigner"].node),
-                "form factor x energy-dependent BW == relativistic_breit_wigner_with_ff(M^2, m_res, Gamma_res, m1, m2, L, d_res, self.phsp_factor)",
-                None if ok else {"builder": repr(edbw)[:200], "function": repr(want)[:200]})
+
+    def with_ff(phsp):
+        return te._rf(te.eval_function(fn_ff, [M**2, res_mass, res_width, m1, m2, L, radius, phsp]))
+
+    want = with_ff(self_struct["phsp_factor"])
+    decide(ctx, results[True, True][0], want, "R-TERM", f"{cls.qual}::ff-times-edbw-equals-function", where_of("__energy_dependent_breit_wigner"),
+           "form factor x energy-dependent BW == relativistic_breit_wigner_with_ff(M^2, m_res, Gamma_res, m1, m2, L, d_res, self.phsp_factor)")
     # the four flag combinations of __call__ against the function API
-    ff_app = te.construct(f"{FF}::FormFactor", [M**2, pool["outgoing_state_mass1"], pool["outgoing_state_mass2"], pool["angular_momentum"], radius], {})
-    width = te.construct(f"{DYN}::EnergyDependentWidth", [M**2, res_mass, res_width, pool["outgoing_state_mass1"], pool["outgoing_state_mass2"], pool["angular_momentum"], radius], {"phsp_factor": self_struct["phsp_factor"]})
-    plain = te._rf(te.eval_function(fn_bw, [M**2, res_mass, res_width]))
-    ed = te._rf(res_mass) * te._rf(res_width) / (te._rf(res_mass) ** 2 - M**2 - width * te._rf(res_mass) * I)
+    ff_app = te.construct(f"{FF}::FormFactor", [M**2, m1, m2, L, radius], {})
+    width = te.construct(f"{DYN}::EnergyDependentWidth", [M**2, res_mass, res_width, m1, m2, L, radius], {"phsp_factor": self_struct["phsp_factor"]})
+    ed = res_mass * res_width / (res_mass**2 - M**2 - width * res_mass * I)
     expected = {
         (False, False): plain,
         (False, True): ff_app * plain,
         (True, False): ed,
-        (True, True): te._rf(want),
+        (True, True): want,
     }
-    call_m = cls.methods["__call__"]
     for (edw_flag, ff_flag), want_expr in expected.items():
-        struct = {**self_struct, "energy_dependent_width": Opaque(edw_flag), "form_factor": Opaque(ff_flag)}
-        got = te.eval_function(call_m, [struct, resonance, pool])
-        ok = isinstance(got, Tup) and equal(te._rf(got.items[0]), want_expr)
-        ctx.verdict(ok, "R-TERM", f"{cls.qual}.__call__::flags({edw_flag},{ff_flag})", tree.loc(call_m.node),
-                    f"builder(energy_dependent_width={edw_flag}, form_factor={ff_flag}) == " + {
-                        (False, False): "relativistic_breit_wigner(M^2, m, Gamma)",
-                        (False, True): "FormFactor x relativistic_breit_wigner",
-                        (True, False): "m Gamma / (m^2 - M^2 - i m Gamma(M^2)) with the builder's phase-space factor",
-                        (True, True): "relativistic_breit_wigner_with_ff(..., phsp_factor = the builder's)",
-                    }[(edw_flag, ff_flag)],
-                    None if ok else repr(got)[:250])
+        decide(ctx, results[edw_flag, ff_flag][0], want_expr, "R-TERM", f"{cls.qual}.__call__::flags({edw_flag},{ff_flag})", tree.loc(call_m.node),
+               f"builder(energy_dependent_width={edw_flag}, form_factor={ff_flag}) == " + {
+                   (False, False): "relativistic_breit_wigner(M^2, m, Gamma)",
+                   (False, True): "FormFactor x relativistic_breit_wigner",
+                   (True, False): "m Gamma / (m^2 - M^2 - i m Gamma(M^2)) with the builder's phase-space factor",
+                   (True, True): "relativistic_breit_wigner_with_ff(..., phsp_factor = the builder's)",
+               }[(edw_flag, ff_flag)])
     # (the composition of __call__ is decided by the four flag combinations above - a textual rule on the
     #  spelling of its two `if`s was removed: it fired on `if not flag: ... else: ...`, see DESIGN.md 9.6)
-    # convenience builders
+
+    # convenience builders: evaluated as the objects they are (a builder instance constructed at module level -
+    # with keywords, positionally, through a shared instance or a wrapper function) and called like a user calls them
     mod = tree.module(BLD)
+    te.overrides[cls.qual] = lambda te_, args, kwargs: te_.new_object(cls.qual, args, kwargs)
+    scope = module_scope(mod)
+    phsp_q = "ampform.dynamics.phasespace::PhaseSpaceFactor"
+    analytic_q = "ampform.dynamics.phasespace::EqualMassPhaseSpaceFactor"
+    for q in (phsp_q, analytic_q):
+        if q not in tree.classes:
+            raise AnalysisError(f"vanished anchor: {q}")
     expect = {
-        "create_relativistic_breit_wigner": ({"form_factor": "False"}, None),
-        "create_relativistic_breit_wigner_with_ff": ({"energy_dependent_width": "True", "form_factor": "True"}, "PhaseSpaceFactor"),
-        "create_analytic_breit_wigner": ({"energy_dependent_width": "True", "form_factor": "True"}, "EqualMassPhaseSpaceFactor"),
+        "create_relativistic_breit_wigner": (plain, "{'form_factor': 'False'}", "relativistic_breit_wigner(M^2, m, Gamma) (no form factor, constant width)"),
+        "create_relativistic_breit_wigner_with_ff": (with_ff(Opaque(("ref", phsp_q))), "{'energy_dependent_width': 'True', 'form_factor': 'True'}, phsp_factor=PhaseSpaceFactor",
+                                                     "relativistic_breit_wigner_with_ff(..., phsp_factor=PhaseSpaceFactor)"),
+        "create_analytic_breit_wigner": (with_ff(Opaque(("ref", analytic_q))), "{'energy_dependent_width': 'True', 'form_factor': 'True'}, phsp_factor=EqualMassPhaseSpaceFactor",
+                                         "relativistic_breit_wigner_with_ff(..., phsp_factor=EqualMassPhaseSpaceFactor)"),
     }
-    for name, (flags, phsp) in expect.items():
-        st = mod.toplevel.get(name)
-        ok = False
-        detail = None
-        if isinstance(st, ast.Assign) and isinstance(st.value, ast.Attribute) and st.value.attr == "__call__" and isinstance(st.value.value, ast.Call):
-            c = st.value.value
-            kw = {k.arg: unparse(k.value) for k in c.keywords}
-            ok = tree.resolve(mod, c.func) == cls.qual and all(kw.get(k) == v for k, v in flags.items())
-            if phsp is not None:
-                ok = ok and kw.get("phsp_factor") == phsp
-            if name == "create_relativistic_breit_wigner":
-                ok = ok and kw.get("energy_dependent_width", "False") == "False"
-            detail = kw
-        ctx.verdict(ok, "R-TERM", f"{BLD}::{name}::flags", tree.loc(st) if st is not None else BLD, f"{name} = RelativisticBreitWignerBuilder({flags}{', phsp_factor=' + phsp if phsp else ''}).__call__", None if ok else detail)
-    # default phase-space factor of the builder
-    init = cls.methods["__init__"]
-    t = unparse(init.node)
-    ok = "if phsp_factor is None:" in t and "phsp_factor = PhaseSpaceFactor" in t and "self.phsp_factor = phsp_factor" in t
-    ctx.verdict(ok, "R-TERM", f"{cls.qual}.__init__::default-phsp", tree.loc(init.node), "builder default phase-space factor is PhaseSpaceFactor and the given one is stored")
+    try:
+        bind_module_objects(te, tree, mod, cls.qual)
+        for name, (want_expr, flags, text) in expect.items():
+            st = mod.toplevel.get(name)
+            callable_value = module_value(te, mod, name)
+            got, _ = builder_pair(te.apply(callable_value, [resonance, pool], {}, {}, scope, 0), f"{BLD}::{name}(resonance, variable_pool)")
+            decide(ctx, got, want_expr, "R-TERM", f"{BLD}::{name}::flags", tree.loc(st) if st is not None else BLD,
+                   f"{name} = RelativisticBreitWignerBuilder({flags}).__call__: {name}(resonance, pool) == {text}")
+        # default phase-space factor of the builder: PhaseSpaceFactor unless one is given, and the given one is used
+        init = tree.lookup_method(cls, "__init__")
+        default_obj = te.new_object(cls.qual, [], {})
+        given_obj = te.new_object(cls.qual, [], {"phsp_factor": Opaque(("ref", "PHSP"))})
+    finally:
+        del te.overrides[cls.qual]
+        te.module_values.clear()
+    problems = []
+    for obj, want_phsp, label in ((default_obj, Opaque(("ref", phsp_q)), "without phsp_factor"), (given_obj, Opaque(("ref", "PHSP")), "with a given phsp_factor")):
+        if "phsp_factor" not in obj:
+            raise AnalysisError("RelativisticBreitWignerBuilder.__init__ does not store `phsp_factor` on the instance (the attribute __call__ reads)")
+        if vkey(obj["phsp_factor"]) != vkey(want_phsp):
+            problems.append(f"constructed {label}: self.phsp_factor = {obj['phsp_factor']!r}")
+    ctx.verdict(not problems, "R-TERM", f"{cls.qual}.__init__::default-phsp", tree.loc(init.node) if init is not None else tree.loc(cls.node),
+                "builder default phase-space factor is PhaseSpaceFactor and the given one is stored", problems or None)
